@@ -937,3 +937,96 @@ pub fn suite_bloomfp(rng: &mut Rng, _cases: u64, t: &mut Trace) -> String {
     }
     format!(",\"model\":false,\"fp_measurements\":[{}]", rows.join(","))
 }
+
+/// C18: TransparentKeyBuilder on every supported integer type against the model (`tkey`), plus
+/// tests of the unmodelled DefaultKeyBuilder (determinism, String / &str agreement).
+/// C20: builder validation against the model (`validate`).
+pub fn suite_keys(rng: &mut Rng, _cases: u64, t: &mut Trace) -> String {
+    use stretto::{DefaultKeyBuilder, KeyBuilder, TransparentKeyBuilder};
+    t.case(0, "keys");
+    macro_rules! kind {
+        ($ty:ty, $name:expr, $vals:expr) => {{
+            let kb = TransparentKeyBuilder::<$ty>::default();
+            let mut vals: Vec<$ty> = $vals;
+            for _ in 0..200 {
+                vals.push(rng.next() as $ty);
+            }
+            for x in vals {
+                let (i, c) = kb.build_key(&x);
+                t.step(&format!("tkey {} {}", $name, x as i128));
+                t.obs(&format!("{} {}", i, c));
+                let again = kb.build_key(&x);
+                if again != (i, c) {
+                    println!("MONITOR property=C18 case=0 msg=TransparentKeyBuilder-not-deterministic type={} key={}", $name, x as i128);
+                }
+            }
+        }};
+    }
+    kind!(u8, "u8", vec![0, 1, 127, 128, 255]);
+    kind!(u16, "u16", vec![0, 1, 255, 256, 65535]);
+    kind!(u32, "u32", vec![0, 1, u32::MAX, 1 << 31]);
+    kind!(u64, "u64", vec![0, 1, u64::MAX, 1 << 63, (1 << 63) - 1]);
+    kind!(usize, "usize", vec![0, 1, usize::MAX]);
+    kind!(i8, "i8", vec![0, 1, -1, i8::MIN, i8::MAX]);
+    kind!(i16, "i16", vec![0, 1, -1, i16::MIN, i16::MAX]);
+    kind!(i32, "i32", vec![0, 1, -1, i32::MIN, i32::MAX]);
+    kind!(i64, "i64", vec![0, 1, -1, i64::MIN, i64::MAX]);
+    kind!(isize, "isize", vec![0, 1, -1, isize::MIN, isize::MAX]);
+    {
+        let kb = TransparentKeyBuilder::<bool>::default();
+        for x in [false, true] {
+            let (i, c) = kb.build_key(&x);
+            t.step(&format!("tkey bool {}", x as u8));
+            t.obs(&format!("{} {}", i, c));
+        }
+    }
+    // DefaultKeyBuilder: not modelled, tested
+    let kb = DefaultKeyBuilder::<String>::default();
+    let mut checked = 0u64;
+    for n in 0..10000u64 {
+        let len = rng.below(24) as usize;
+        let s: String = (0..len).map(|_| (b'a' + rng.below(26) as u8) as char).collect();
+        let a = kb.build_key(&s);
+        let b = kb.build_key(&s);
+        let c = kb.build_key::<str>(s.as_str());
+        if a != b {
+            println!("MONITOR property=C18 case=0 msg=DefaultKeyBuilder-not-deterministic key={:?}", s);
+        }
+        if a != c {
+            println!("MONITOR property=C18 case=0 msg=String-and-str-hash-differently key={:?}", s);
+        }
+        checked = n + 1;
+    }
+    let kbi = DefaultKeyBuilder::<u64>::default();
+    for _ in 0..10000 {
+        let x = rng.next();
+        if kbi.build_key(&x) != kbi.build_key(&x) {
+            println!("MONITOR property=C18 case=0 msg=DefaultKeyBuilder-not-deterministic key={}", x);
+        }
+    }
+    // builder validation
+    t.case(1, "keys");
+    for nc in [0usize, 1, 5] {
+        for mc in [0i64, -3, 1, 100] {
+            for bs in [0usize, 1, 64] {
+                let r = stretto::Cache::<u64, u64>::builder(nc, mc).set_buffer_size(bs).finalize();
+                let o = match &r {
+                    Ok(_) => "ok".to_string(),
+                    Err(e) => match e {
+                        stretto::CacheError::InvalidNumCounters => "InvalidNumCounters".into(),
+                        stretto::CacheError::InvalidMaxCost => "InvalidMaxCost".into(),
+                        stretto::CacheError::InvalidBufferSize => "InvalidBufferSize".into(),
+                        other => format!("other:{:?}", other),
+                    },
+                };
+                if let Ok(c) = r {
+                    let _ = c.close();
+                }
+                t.step(&format!("validate {} {} {}", nc, mc, bs));
+                t.obs(&o);
+            }
+        }
+    }
+    t.mark_nontrivial();
+    format!(",\"default_key_builder_strings_checked\":{}", checked)
+}
